@@ -443,6 +443,19 @@ func (p c05) Run(c *core.Ctx, idx int) {
 			}
 		}
 	}
+	// how the leaf reaches the restricted type: directly, as the first member of a union whose other member accepts no candidate, or as a
+	// leafref to a sibling leaf of that type. The effective type - what the leaf may hold - is the same in all three.
+	via := []string{"", "", "union", "leafref"}[(idx/15)%4]
+	if t.base == "enumeration" || t.base == "bits" || t.base == "identityref" {
+		via = ""
+	}
+	switch via {
+	case "union":
+		leafType = "type union { " + leafType + " type enumeration { enum never-a-candidate; } }"
+	case "leafref":
+		decoy += "    leaf tgt { " + leafType + " }\n"
+		leafType = "type leafref { path \"../tgt\"; }"
+	}
 	yang := fmt.Sprintf("module m {\n  namespace \"urn:m\";\n  prefix m;\n  revision 2020-01-01;\n%s%s  container c {\n    %s x { %s }\n    leaf other { type string; }\n%s  }\n}\n", idents, tds, kw, leafType, decoy)
 	var mod *meta.Module
 	var err error
@@ -465,6 +478,9 @@ func (p c05) Run(c *core.Ctx, idx int) {
 			cs.Children = append(cs.Children, &dp.SNode{Kind: dp.Leaf, Name: fmt.Sprintf("decoy%d%d", i, j), Type: &dp.SType{Base: "string"}})
 		}
 	}
+	if via == "leafref" {
+		cs.Children = append(cs.Children, &dp.SNode{Kind: dp.Leaf, Name: "tgt", Type: t.stype()})
+	}
 	s := &dp.Schema{Name: "m", Prefix: "m", NS: "urn:m", Top: []*dp.SNode{cs}}
 	if err := s.BindTo(mod); err != nil {
 		c.R.Inconclusive = "bind: " + err.Error()
@@ -481,7 +497,7 @@ func (p c05) Run(c *core.Ctx, idx int) {
 	}
 	havePre := v0 != "" || (t.base == "string" && t.member(""))
 	kinds := levelKinds(t)
-	paths := []string{"set-typed", "setvalue", "json", "xml", "node"}
+	paths := []string{"set-typed", "setvalue", "json", "xml", "node", "node-into"}
 	for _, cand := range cands {
 		in := t.member(cand)
 		// leaf-list: mix one candidate with members
@@ -499,7 +515,7 @@ func (p c05) Run(c *core.Ctx, idx int) {
 			lval = &dp.LVal{V: []string{cand}}
 		}
 		for _, path := range paths {
-			if (path == "set-typed" || path == "node") && (t.base == "enumeration" || t.base == "bits" || t.base == "identityref") {
+			if (path == "set-typed" || path == "node" || path == "node-into") && (t.base == "enumeration" || t.base == "bits" || t.base == "identityref") {
 				continue // membership of labels is decided while converting; typed values carry what the caller built
 			}
 			root := dp.NewDNode(nil)
@@ -569,6 +585,18 @@ func (p c05) Run(c *core.Ctx, idx int) {
 					holder := dp.NewDNode(cs)
 					holder.Leaves["x"] = lval
 					werr = csel.UpsertFrom(dp.NewStore(s, nil).NodeAt(holder))
+				case "node-into":
+					// the same edit started from the source side: its selection is split onto the target node
+					srcRoot := dp.NewDNode(nil)
+					holder := dp.NewDNode(cs)
+					holder.Leaves["x"] = lval
+					srcRoot.Kids["c"] = holder
+					ssel, e := dp.NewStore(s, srcRoot).Browser().Root().Find("c")
+					if e != nil || ssel == nil {
+						werr = fmt.Errorf("verif: source container not found: %v", e)
+						return
+					}
+					werr = ssel.UpsertInto(store.NodeAt(cn))
 				}
 			})
 			if panicked {
@@ -580,10 +608,30 @@ func (p c05) Run(c *core.Ctx, idx int) {
 				sig += "/leaf-list"
 			}
 			sig += "/" + path
+			if via != "" {
+				sig += "/via-" + via
+			}
 			if strings.Contains(rc, "one-of-several") {
 				// several pattern statements: the library accepts a value matching ANY of them (pinned by its own
 				// test suite); one coarse signature so that the known finding does not fan out
 				sig = "string/patterns-ored"
+				// ... but only what that explains: the library checks the patterns of the nearest level that states any and takes the
+				// value when one of them accepts it. A value none of those accepts is a different matter.
+				explained := false
+				for i := len(t.levels) - 1; i >= 0; i-- {
+					if len(t.levels[i].pats) == 0 {
+						continue
+					}
+					for _, pt := range t.levels[i].pats {
+						if regexp.MustCompile(`^(?:`+pt.re+`)$`).MatchString(cand) != pt.invert {
+							explained = true
+						}
+					}
+					break
+				}
+				if !explained {
+					sig = "string/pattern-of-nearest-level-violated/" + path
+				}
 			}
 			if !in {
 				if werr == nil {
